@@ -624,7 +624,7 @@ def model_next(m, it, sp, item_ty=None):
             return None
         return deep(load(m, x))
     if k == "map":
-        x = model_next(m, st["inner"], sp, None)
+        x = model_next(m, st["inner"], sp, closure_arg_ty(m, st["f"], 0))
         if x is None:
             return None
         return m.call_closure(st["f"], [x], sp)
@@ -729,11 +729,27 @@ def iter_next(m, ref, args, t, sp):
     raise Unsupported("next on %r" % (it,))
 
 
-def pull(m, itv, sp):
+def closure_arg_ty(m, clo, idx):
+    """type of the idx-th declared parameter of a closure value (to type the items of an abstract
+    iterator that is consumed through for_each / fold / map)"""
+    v = clo
+    if isinstance(v, VRef):
+        try:
+            v = m.read_loc(v.cell, v.path)
+        except Unsupported:
+            return None
+    if isinstance(v, VStruct):
+        f = m.db.fns.get(v.path)
+        if f is not None and f["arg_count"] >= 2 + idx:
+            return f["locals"][2 + idx]["ty"]
+    return None
+
+
+def pull(m, itv, sp, item_ty=None):
     """generator over the remaining items of an iterator value"""
     while True:
         if isinstance(itv, VModel):
-            x = model_next(m, itv, sp, None)
+            x = model_next(m, itv, sp, item_ty)
         else:
             c = Cell(itv)
             o = iter_next(m, None, [VRef(c, (), True)], None, sp)
@@ -775,7 +791,7 @@ def iter_sum(m, ref, args, t, sp):
 
 def iter_for_each(m, ref, args, t, sp):
     it = iter_of(m, args[0], sp) if not isinstance(args[0], VStruct) else args[0]
-    for x in pull(m, it, sp):
+    for x in pull(m, it, sp, closure_arg_ty(m, args[1], 0)):
         m.call_closure(args[1], [x], sp)
     return UNIT
 
@@ -783,7 +799,7 @@ def iter_for_each(m, ref, args, t, sp):
 def iter_fold(m, ref, args, t, sp):
     it = iter_of(m, args[0], sp) if not isinstance(args[0], VStruct) else args[0]
     acc = args[1]
-    for x in pull(m, it, sp):
+    for x in pull(m, it, sp, closure_arg_ty(m, args[2], 1)):
         acc = m.call_closure(args[2], [acc, x], sp)
     return acc
 
